@@ -14,8 +14,9 @@ The Python side renders, runs, projects and computes diagnostic features; it nev
 from __future__ import annotations
 
 import json
-import math
 import os
+import threading
+import time
 from concurrent.futures import ThreadPoolExecutor
 
 from .. import tlc as T
@@ -24,6 +25,7 @@ from .. import scc_gen as G
 
 PID = "C08"
 LEVEL = "model_checking"
+_LOCK = threading.Lock()
 
 DECODER_ACTIONS = ["Null", "Chars", "Pac", "MidRow", "RCL", "RDC", "RU", "CR", "EOC", "EDM", "ENM", "BS", "TO", "DER", "Special",
                    "Extended", "DupControl", "OtherChannel", "NewLine"]
@@ -54,6 +56,7 @@ CFG_GEN = """CONSTANTS
   GMaxCaps = {maxcaps}
   GMaxRows = {maxrows}
   GMaxItems = {maxitems}
+  GBudget = {budget}
   GStarts <- MCStarts
   GMids <- MCMids
   GSpecials <- MCSpecials
@@ -79,6 +82,7 @@ CFG_TRACE = """CONSTANTS
   GMaxCaps = 0
   GMaxRows = 0
   GMaxItems = 0
+  GBudget = 0
   GStarts = {}
   GMids = {}
   GSpecials = {}
@@ -125,7 +129,7 @@ QUICK = {
   "rollup3": dict(chars=[(65, 66)], descs=[16]),
   "painton2": dict(descs=[16]),
   "items": dict(maxitems=2),
-  "mixed1": dict(styles=["popon", "rollup"], opts=["single", "dup", "null", "ch2"]),
+  "mixed1": dict(styles=["popon", "rollup"], opts=["single", "dup", "null", "ch2"], budget=1),
   "mixed2": dict(styles=["popon"], opts=["dup", "gap", "pair", "erase"]),
 }
 SIMULATE = dict(styles=["popon", "rollup", "painton"], chars=[(65, 66), (67, 0), (32, 68), (69, 32), (42, 92), (127, 96)],
@@ -144,7 +148,7 @@ def run_generator(name, cfg, simulate=None, seed=None, extra="", timeout=900, co
                       depths=_set(cfg["depths"]), opts=_set(cfg["opts"]), starts=_set(cfg["starts"]),
                       mids=_set(cfg.get("mids", [14])), specials=_set(cfg.get("specials", [7])),
                       extendeds=_set(cfg.get("extendeds", [(2, 1)])))
-  text = CFG_GEN.format(maxcaps=cfg["maxcaps"], maxrows=cfg["maxrows"], maxitems=cfg["maxitems"], extra=extra,
+  text = CFG_GEN.format(maxcaps=cfg["maxcaps"], maxrows=cfg["maxrows"], maxitems=cfg["maxitems"], extra=extra, budget=cfg.get("budget", 2),
                         pick="MCPickOne" if simulate else "MCPickAll")
   res = T.run_tlc("MC_Cea608Decoder", text, workers=workers, extra_files={"MC_Cea608Decoder.tla": mc}, timeout=timeout,
                   simulate=simulate, depth=150 if simulate else None, seed=seed, name="gen_" + name, coverage=coverage)
@@ -298,7 +302,8 @@ def validate(ctx, recs, label, coverage=False, nproc=6):
       raise T.MachineryError(f"trace {label} not consumed: " + res.out[-2500:])
     if res.violated:
       raise T.MachineryError(f"decoder invariant violated while walking trace {label}: {res.violated}\n" + res.out[-2500:])
-    ctx.tlc(res, "trace validation " + label)
+    with _LOCK:
+      ctx.tlc(res, "trace validation " + label)
     for v in res.values("FAIL"):
       fails.setdefault(v[1], []).append((v[2], v[3]))
     for v in res.values("SKIP"):
@@ -314,14 +319,32 @@ def validate(ctx, recs, label, coverage=False, nproc=6):
 # diagnostic features of a failing record (for known-finding selectors and for reading the replay file)
 # ---------------------------------------------------------------------------------------------------
 
-def dup_count_before(stream, x):
-  """k(x): number of suppressed duplicate code words on the SCC line that is being transmitted at frame x-1, at frames < x-1."""
+def dup_counts_before(stream, x):
+  """Candidate values of k for an event reported at frame x by a reader with a correct clock: the number of suppressed
+  duplicate code words on the SCC line of the triggering word, before that word.  The reader reports an event at the
+  end of the triggering word (x - 1) or, for EDM, one frame later (x - 2)."""
   dups = suppressed_duplicates(stream["lines"])
-  k = 0
-  for (fr, ws), flags in zip(stream["lines"], dups):
-    if fr <= x - 1:
-      k = sum(1 for j, fl in enumerate(flags) if fl and fr + j < x - 1)
-  return k
+  out = set()
+  for t in (x - 1, x - 2):
+    for (fr, ws), flags in zip(stream["lines"], dups):
+      if fr <= t < fr + len(ws):
+        out.add(sum(1 for j, fl in enumerate(flags) if fl and fr + j < t))
+  return out or {0}
+
+
+def event_times(pars):
+  """Every time the document carries, in frames as (num, den): paragraph begin, end, absolute begin of timed spans."""
+  out = []
+  for p in pars:
+    out.append(tuple(p["b"]))
+    out.append(tuple(p["e"]))
+    seen = set()
+    for r in p["rows"]:
+      for c in r["cells"]:
+        if c[4] != 0 and (c[4], c[5]) not in seen:
+          seen.add((c[4], c[5]))
+          out.append((p["b"][0] * c[5] + c[4] * p["b"][1], p["b"][1] * c[5]))
+  return out
 
 
 TIMING_CLAUSES = ("begin_frame", "end_frame", "before_first_line", "begin_exact_frame", "end_exact_frame")
@@ -359,95 +382,96 @@ def run(ctx):
               "TLC (all behaviours of the generator on small alphabets, simulated behaviours on the full ones) and from a seeded "
               "random generator; non-trivial = distinct word sequence that displays at least one caption")
 
-  # ---- 1. design: the generator's behaviours, decoder invariants on every state ------------------
+  recs = []
+  aux = {}
+
+  def record_all(streams):
+    out = []
+    for s in streams:
+      rid = len(recs) + 1
+      try:
+        rec, a = record(s, rid)
+      except Exception as ex:  # pylint: disable=broad-except
+        ctx.violation("reader_raises", {"scc": U.render_scc([(U.frames_to_label(fr, s["df"]), ws) for fr, ws in s["lines"]], s["df"], s["parity"]),
+                                        "error": repr(ex)}, {"source": s["source"], "error": type(ex).__name__, "cause": "other"},
+                      f"to_model raised {type(ex).__name__}: {ex}")
+        continue
+      recs.append(rec)
+      out.append(rec)
+      aux[rid] = (s, a)
+      if a["pars"]:
+        ctx.nontrivial(hash((tuple(w for _, ws in s["lines"] for w in ws), s["df"])))
+    return out
+
+  # ---- 1. design: the generator's behaviours, decoder invariants on every state (started first, runs in the background)
   jobs = []
   for name, cfg in EXHAUSTIVE.items():
     if not thorough:
       cfg = dict(cfg, **QUICK.get(name, {}))
     jobs.append((name, cfg, None, None))
-  nsim = 3000 if thorough else 400
+  nsim = 3000 if thorough else 250
   jobs.append(("simulate", SIMULATE, f"num={nsim}", ctx.seed + 1))
 
   def gen(job):
     name, cfg, sim, seed = job
     extra = "PROPERTY GenRefinesDecoder" if name == "popon2" else ""
-    return job, run_generator(name, cfg, simulate=sim, seed=seed, extra=extra, coverage=(sim is None), workers=2 if sim is None else 1)
+    return job, run_generator(name, cfg, simulate=sim, seed=seed, extra=extra, coverage=(sim is None), workers=2 if sim is None else 1,
+                              timeout=3000)
 
-  with ThreadPoolExecutor(max_workers=8) as ex:
-    gens = list(ex.map(gen, jobs))
+  t0 = time.time()
+  pool = ThreadPoolExecutor(max_workers=10)
+  gen_futs = [pool.submit(gen, j) for j in jobs]
+
+  # ---- 2. seeded random protocol streams: recorded and validated while the generator models run ---------
+  nrand = 6000 if thorough else 400
+  rstreams = []
+  for j in range(nrand):
+    s = G.gen_stream(rng, plain=(j % 5 == 0))
+    s["source"] = "random"
+    rstreams.append(s)
+  rrecs = record_all(rstreams)
+  rand_fut = pool.submit(validate, ctx, rrecs, "random", False, 6 if not thorough else 8)
+
+  # ---- 3. spec -> code: the behaviours TLC reached -------------------------------------------------------
   streams = []
-  for (name, cfg, sim, seed), res in gens:
+  for fut in gen_futs:
+    (name, cfg, sim, seed), res = fut.result()
     ctx.tlc(res, ("simulation " if sim else "exhaustive generator model ") + name)
     behs = res.values("BEH")
     if not behs:
       raise T.MachineryError(f"generator configuration {name} produced no behaviour\n" + res.out[-1500:])
-    ctx.count("behaviours:" + name, len(behs))
     seen = set()
+    mine = []
     for b in behs:
       key = (b[1], b[3])
       if key in seen:
         continue
       seen.add(key)
-      s = behaviour_to_stream(b, rng, len(streams))
+      s = behaviour_to_stream(b, rng, len(mine))
       s["source"] = name
-      streams.append(s)
-
-  # quick tier: a seeded sample of the exhaustive behaviours is replayed (all of them at the thorough tier)
-  if not thorough:
-    keep = []
-    by = {}
-    for s in streams:
-      by.setdefault(s["source"], []).append(s)
-    for name, lst in by.items():
-      limit = 260
-      if len(lst) > limit:
-        lst = lst[:20] + rng.sample(lst[20:], limit - 20)
-      keep.extend(lst)
-    streams = keep
-
-  # ---- 2. seeded random protocol streams ----------------------------------------------------------
-  nrand = 6000 if thorough else 500
-  for j in range(nrand):
-    s = G.gen_stream(rng, plain=(j % 5 == 0))
-    s["source"] = "random"
-    streams.append(s)
-
-  # ---- 3. run the reader, record ------------------------------------------------------------------
-  recs = []
-  aux = {}
-  for s in streams:
-    rid = len(recs) + 1
-    try:
-      rec, a = record(s, rid)
-    except Exception as ex:  # pylint: disable=broad-except
-      ctx.violation("reader_raises", {"scc": U.render_scc([(U.frames_to_label(fr, s["df"]), ws) for fr, ws in s["lines"]], s["df"], s["parity"]),
-                                      "error": repr(ex)}, {"source": s["source"], "error": type(ex).__name__},
-                    f"to_model raised {type(ex).__name__}: {ex}")
-      continue
-    recs.append(rec)
-    aux[rid] = (s, a)
-    key = tuple(w for _, ws in s["lines"] for w in ws)
-    if a["pars"]:
-      ctx.nontrivial(hash((key, s["df"])))
+      mine.append(s)
+    ctx.count("behaviours:" + name, len(mine))
+    # quick tier: a seeded sample of the behaviours is replayed (all of them at the thorough tier, up to 6000 per model)
+    limit = 6000 if thorough else 200
+    if len(mine) > limit:
+      mine = mine[:20] + rng.sample(mine[20:], limit - 20)
+    ctx.count("behaviours_replayed:" + name, len(mine))
+    streams.extend(mine)
+  ctx.notes.append("generator runs: %.1f s" % (time.time() - t0))
+  trecs = record_all(streams)
   ctx.evaluations = len(recs)
   ctx.traces = len(recs)
-
-  by_source = {}
-  for rec in recs:
-    by_source.setdefault("tlc" if aux[rec["id"]][0]["source"] != "random" else "random", []).append(rec)
-  fails = {}
-  skips = {}
-  cov_total = {}
-  for src, lst in by_source.items():
-    f, sk, cov = validate(ctx, lst, src, coverage=True)
-    fails.update(f)
-    skips.update(sk)
-    ctx.counts["decoder_actions_fired:" + src] = {a: cov.get(a, 0) for a in DECODER_ACTIONS}
-    for a, n in cov.items():
-      cov_total[a] = cov_total.get(a, 0) + n
-  never = [a for a in DECODER_ACTIONS if cov_total.get(a, 0) == 0]
+  t1 = time.time()
+  fails, skips, cov = validate(ctx, trecs, "tlc", True, 6 if not thorough else 8)
+  ctx.counts["decoder_actions_fired_in_replayed_tlc_behaviours"] = {a: cov.get(a, 0) for a in DECODER_ACTIONS}
+  never = [a for a in DECODER_ACTIONS if cov.get(a, 0) == 0]
   if never:
-    raise T.MachineryError("decoder actions never fired in the replayed behaviours: " + ", ".join(never))
+    raise T.MachineryError("decoder actions that never fired in the replayed exhaustive / simulated behaviours: " + ", ".join(never))
+  f2, sk2, _ = rand_fut.result()
+  fails.update(f2)
+  skips.update(sk2)
+  pool.shutdown()
+  ctx.notes.append("trace validation after the generator runs: %.1f s" % (time.time() - t1))
   ctx.count("records_skipped_out_of_domain", len(skips))
   ctx.count("records_failing", len(fails))
 
@@ -482,19 +506,19 @@ def run(ctx):
     if rid in vmap:
       vid, va = vmap[rid]
       vset = set(vfails.get(vid, []))
-      if len(va["pars"]) == len(a["pars"]):
+      ev0, ev1 = event_times(a["pars"]), event_times(va["pars"])
+      if len(ev0) == len(ev1):
         shift_is_k = True
-        for p, q in zip(a["pars"], va["pars"]):
-          for key in ("b", "e"):
-            if q[key][0] < 0 or p[key][0] < 0:
-              ok = q[key] == p[key]
-              k = 0
-            else:
-              exp = q[key][0] // q[key][1]
-              k = dup_count_before(s, exp)
-              ok = q[key][1] == 1 and p[key][1] == 1 and exp - p[key][0] == k
-            kmax = max(kmax, k)
-            shift_is_k = shift_is_k and ok
+        for p, q in zip(ev0, ev1):
+          if q[0] < 0 or p[0] < 0:
+            ok = q == p
+            k = 0
+          else:
+            exp = q[0] // q[1]
+            k = exp - p[0] // p[1]
+            ok = q[1] == 1 and p[1] == 1 and k in dup_counts_before(s, exp)
+          kmax = max(kmax, k)
+          shift_is_k = shift_is_k and ok
     single_edm = single_edm_frames(s)
     groups = {}
     for fr, clause in fl:
